@@ -13,7 +13,7 @@ from __future__ import annotations
 import gc
 from collections import OrderedDict
 
-from kit.h import P, run, mark, known
+from kit.h import P, run, mark, known, space_size
 from urllib3._collections import RecentlyUsedContainer
 
 KEYS = ["k0", "k1", "k2", "k3"]
@@ -431,6 +431,394 @@ def c17_manager(num_pools: int, o1: int, o2: int, o3: int, o4: int, s1: bool, s2
     return run(_manager_body, num_pools, o1, o2, o3, o4, s1, s2, clear_at, lookup_only)
 
 
+# ---- two racing threads on one PoolManager ---------------------------------------------------------------------
+#
+# c17_race : two REAL threads use one PoolManager in lock-step; the schedule (pre-state, w1, x1) is a solver variable and w2 is
+#            swept inside the path.  Scheduling points: every acquire/release of the container's lock (replaced by a lock the
+#            scheduler understands: waiting for it hands control to the owner, releasing it hands control back) and every access
+#            to the container's underlying dict.  Asserts LINEARIZABILITY of the manager's get-or-create / clear against a
+#            reference LRU over pool identities: some sequential order of the operations explains which pool object every caller
+#            obtained, which pools were disposed (each exactly once), and the final cache content and recency order; plus: at
+#            most num_pools cached, cached pools open, disposed pools closed, no hang, nothing but urllib3 errors.
+
+import threading
+from harness.c02 import Sched, Hang, SchedStuck
+
+RSCHED = None
+
+
+class RaceSched(Sched):
+    resume = None
+
+    def hand_back(self):
+        """Called by the thread that just released the lock another thread waits for: the waiter resumes where it was."""
+        me = threading.current_thread().name
+        other = self._other(me)
+        with self.cv:
+            if other in self.blocked and self.resume and self.resume[0] == other:
+                _, (seg, left) = self.resume
+                self.resume = None
+                self.seg, self.left = seg, left
+                self.turn = other
+                self.cv.notify_all()
+                self._wait_turn(me)
+
+
+class SchedLock:
+    """Re-entrant lock whose contention the lock-step scheduler understands."""
+
+    def __init__(self, sched):
+        self.sched = sched
+        self.owner = None
+        self.count = 0
+        self.waiters = 0
+
+    def _live(self):
+        return RSCHED is not None and self.sched is RSCHED and RSCHED.active and threading.current_thread().name in ("W", "X")
+
+    def acquire(self, blocking=True, timeout=-1):
+        me = threading.current_thread().name
+        if self._live():
+            RSCHED.tick("lock.acquire")
+            while self.owner not in (None, me):
+                self.waiters += 1
+                ok = RSCHED.wait_for_others("lock")
+                self.waiters -= 1
+                if not ok:
+                    RSCHED.hang = "deadlock: waiting for the container lock that nobody will release"
+                    raise Hang()
+        self.owner = me
+        self.count += 1
+        return True
+
+    def release(self):
+        self.count -= 1
+        if self.count == 0:
+            self.owner = None
+            if self._live():
+                if self.waiters:
+                    RSCHED.hand_back()
+                RSCHED.tick("lock.release")
+
+    def __enter__(self):
+        self.acquire()
+        return self
+
+    def __exit__(self, *a):
+        self.release()
+
+    def _is_owned(self):
+        return self.owner == threading.current_thread().name and self.count > 0
+
+
+class TickDict(OrderedDict):
+    sched = None
+
+    def _t(self, what):
+        if RSCHED is not None and self.sched is RSCHED:
+            RSCHED.tick(what)
+
+    def pop(self, *a):
+        self._t("d.pop")
+        return OrderedDict.pop(self, *a)
+
+    def __setitem__(self, k, v):
+        self._t("d.set")
+        OrderedDict.__setitem__(self, k, v)
+
+    def popitem(self, last=True):
+        self._t("d.popitem")
+        return OrderedDict.popitem(self, last)
+
+    def __len__(self):
+        self._t("d.len")
+        return OrderedDict.__len__(self)
+
+    def values(self):
+        self._t("d.values")
+        return OrderedDict.values(self)
+
+    def keys(self):
+        self._t("d.keys")
+        return OrderedDict.keys(self)
+
+    def clear(self):
+        self._t("d.clear")
+        OrderedDict.clear(self)
+
+    def get(self, *a):
+        self._t("d.get")
+        return OrderedDict.get(self, *a)
+
+    def __getitem__(self, k):
+        self._t("d.getitem")
+        return OrderedDict.__getitem__(self, k)
+
+    def __contains__(self, k):
+        self._t("d.contains")
+        return OrderedDict.__contains__(self, k)
+
+
+class RacePM(PoolManager):
+    log = None
+
+    def connection_from_pool_key(self, pool_key, request_context):
+        p = super().connection_from_pool_key(pool_key, request_context)
+        name = threading.current_thread().name
+        if self.log is not None and name in ("W", "X"):
+            self.log.append((name, p))
+        return p
+
+
+RORIG = {"a": "http://a/", "b": "http://b/", "c": "http://c:81/"}
+W_OPS = [("lookup", "a"), ("request", "a")]
+X_OPS = [[("lookup", "a")], [("lookup", "b")], [("clear", None)], [("lookup", "b"), ("lookup", "c")], [("request", "a")],
+         [("lookup", "b"), ("clear", None)]]
+PRE = [(), ("a",), ("b",), ("b", "a"), ("a", "b")]
+
+
+def race_dims(part):
+    return [list(part["pre"]), list(range(part["wmax"] + 1)), list(range(part["xmax"] + 1))]
+
+
+def _ref_run(num_pools, pre, order):
+    """Reference LRU over pool identities.  order = [(opid, kind, key)].  Returns (results, disposed, final)."""
+    cache = []                          # [(key, label)], least recently used first
+    disposed = []
+    for k in pre:
+        cache = [c for c in cache if c[0] != k]
+        cache.append((k, "pre:" + k))
+        while len(cache) > num_pools:
+            cache.pop(0)                # (evictions while building the pre-state are not part of the schedule)
+    results = {}
+    for opid, kind, key in order:
+        if kind == "clear":
+            disposed.extend(lbl for _, lbl in cache)
+            cache = []
+            continue
+        hit = [c for c in cache if c[0] == key]
+        if hit:
+            cache.remove(hit[0])
+            cache.append(hit[0])
+            results[opid] = hit[0][1]
+        else:
+            lbl = "new:" + opid
+            cache.append((key, lbl))
+            results[opid] = lbl
+            while len(cache) > num_pools:
+                disposed.append(cache.pop(0)[1])
+    return results, sorted(disposed), cache
+
+
+def _interleavings(w, x):
+    if not w:
+        yield list(x)
+        return
+    if not x:
+        yield list(w)
+        return
+    for rest in _interleavings(w[1:], x):
+        yield [w[0]] + rest
+    for rest in _interleavings(w, x[1:]):
+        yield [x[0]] + rest
+
+
+def _race_once(num_pools, wop, xops, pre, w1, x1, w2):
+    global RSCHED
+    from kit.h import Skip
+    from urllib3.exceptions import HTTPError
+    peer = OkPeer()
+    netw = N.install(peer)
+    E.install_clock()
+    sched = RaceSched([("W", w1), ("X", x1), ("W", w2), ("X", None), ("W", None)])
+    out = {}
+    try:
+        pm = RacePM(num_pools=num_pools)
+        disposed_objs = []
+        orig_dispose = pm.pools.dispose_func
+
+        def dispose(p):
+            disposed_objs.append(p)
+            if orig_dispose:
+                orig_dispose(p)
+        pm.pools.dispose_func = dispose
+        pre_pools = {}
+        for k in pre:
+            pre_pools[k] = pm.connection_from_url(RORIG[k])
+        pre_alive = {}
+        for k, p in pre_pools.items():
+            if not any(p is d for d in disposed_objs):
+                pre_alive[k] = p
+        del disposed_objs[:]
+        # arm the scheduler
+        d = TickDict()
+        for k, v in pm.pools._container.items():
+            OrderedDict.__setitem__(d, k, v)
+        d.sched = sched
+        pm.pools._container = d
+        pm.pools.lock = SchedLock(sched)
+        pm.log = []
+        RSCHED = sched
+
+        def do(ops, name):
+            res = []
+            try:
+                for kind, key in ops:
+                    if kind == "lookup":
+                        pm.connection_from_url(RORIG[key])
+                        res.append(("ok", None))
+                    elif kind == "clear":
+                        pm.clear()
+                        res.append(("ok", None))
+                    else:
+                        try:
+                            r = pm.request("GET", RORIG[key], retries=False)
+                            res.append(("ok", (r.status, r.data)))
+                        except HTTPError as e:
+                            res.append(("err", e))
+                out[name] = ("done", res)
+            except Hang:
+                out[name] = ("hang", None)
+            except SchedStuck as e:
+                out[name] = ("stuck", e)
+            except BaseException as e:
+                out[name] = ("internal", e)
+
+        def other_thread():
+            sched.start_thread("X")
+            try:
+                do(xops, "X")
+            finally:
+                sched.finish("X")
+        tx = threading.Thread(target=other_thread, name="X", daemon=True)
+        main = threading.current_thread()
+        old_name = main.name
+        main.name = "W"
+        try:
+            tx.start()
+            sched.active = True
+            do([wop], "W")
+            sched.finish("W")
+            tx.join(10)
+        finally:
+            sched.active = False
+            main.name = old_name
+            RSCHED = None
+        if tx.is_alive():
+            raise Skip("scheduler: the other thread never finished: %r" % (sched.trace[-8:],))
+        if any(o[0] == "stuck" for o in out.values()):
+            raise Skip("scheduler lost track: %r" % ([o[1] for o in out.values() if o[0] == "stuck"][:1],))
+        where = "num_pools=%d pre=%r W=%r X=%r schedule (%d,%d,%d)" % (num_pools, pre, wop, xops, w1, x1, w2)
+        for name in ("W", "X"):
+            o = out.get(name)
+            if o is None:
+                return _fail("%s: thread %s produced no outcome" % (where, name))
+            if o[0] == "hang":
+                return _fail("%s: thread %s hangs: %s | trace %r" % (where, name, sched.hang, sched.trace[-8:]))
+            if o[0] == "internal":
+                import traceback
+                return _fail("%s: thread %s raised %r\n%s" % (where, name, o[1], "".join(traceback.format_exception(o[1]))[-700:]))
+            for kind, v in o[1]:
+                if kind == "ok" and v is not None and v != (200, b"0123456789"):
+                    return _fail("%s: thread %s got response %r" % (where, name, v))
+        # ---- observed facts ----
+        got = {"W": [p for n, p in pm.log if n == "W"], "X": [p for n, p in pm.log if n == "X"]}
+        wl = [("W0", "lookup", wop[1])]
+        xl = []
+        for i, (kind, key) in enumerate(xops):
+            xl.append(("X%d" % i, "clear" if kind == "clear" else "lookup", key))
+        obs_pool = {}
+        gi = {"W": 0, "X": 0}
+        for opid, kind, key in wl + xl:
+            if kind == "lookup":
+                t = opid[0]
+                if gi[t] >= len(got[t]):
+                    return _fail("%s: operation %s obtained no pool" % (where, opid))
+                obs_pool[opid] = got[t][gi[t]]
+                gi[t] += 1
+        raw = pm.pools._container
+        final_obs = [(k, v) for k, v in OrderedDict.items(raw)]
+        if len(final_obs) > num_pools:
+            return _fail("%s: %d pools cached, num_pools=%d" % (where, len(final_obs), num_pools))
+        for p in disposed_objs:
+            if sum(1 for q in disposed_objs if q is p) != 1:
+                return _fail("%s: a pool was disposed more than once" % where)
+        for _, p in final_obs:
+            if p.pool is None:
+                return _fail("%s: a pool that is still cached was closed" % where)
+            if any(p is q for q in disposed_objs):
+                return _fail("%s: a pool that is still cached was disposed" % where)
+        explained = False
+        why = ""
+        for order in _interleavings(wl, xl):
+            exp_res, exp_disp, exp_final = _ref_run(num_pools, pre, order)
+
+            def label(obj):
+                for k, p in pre_alive.items():
+                    if p is obj:
+                        return "pre:" + k
+                for opid, _, _ in order:
+                    if opid in obs_pool and obs_pool[opid] is obj:
+                        return "new:" + opid
+                return "unknown"
+            ok = all(label(obs_pool[opid]) == exp_res[opid] for opid in exp_res)
+            if ok and sorted(label(p) for p in disposed_objs) != exp_disp:
+                ok = False
+                why = "disposed %r expected %r" % (sorted(label(p) for p in disposed_objs), exp_disp)
+            if ok and [(p.host, label(p)) for _, p in final_obs] != [(RORIG[k].split("/")[2].split(":")[0], lbl) for k, lbl in exp_final]:
+                ok = False
+                why = "final cache %r expected %r" % ([(p.host, label(p)) for _, p in final_obs], exp_final)
+            if ok:
+                explained = True
+                break
+        if not explained:
+            return _fail("%s: no sequential order of the operations explains the outcome (pools obtained: %r; %s) | trace %r" % (
+                where, {k: id(v) % 10007 for k, v in obs_pool.items()}, why, sched.trace[-14:]))
+        # ---- sockets of disposed pools are closed once nothing uses them ----
+        cached_addrs = [(p.host, p.port) for _, p in final_obs]
+        out.clear()
+        obs_pool = got = pre_pools = pre_alive = None
+        p = q = o = v = label = final_obs = raw = d = None
+        pm.log = None
+        del disposed_objs[:]
+        leaked = [s for s in netw.socks if not s.closed and (s.address[0], s.address[1]) not in cached_addrs]
+        if leaked:
+            gc.collect()
+            leaked = [s for s in netw.socks if not s.closed and (s.address[0], s.address[1]) not in cached_addrs]
+        if leaked:
+            return _fail("%s: socket to %r still open although its pool was evicted and dropped" % (where, leaked[0].address,))
+        return True
+    finally:
+        RSCHED = None
+        N.uninstall()
+        E.uninstall_clock()
+
+
+def _race_all(num_pools, wi, xi, pi, w1, x1):
+    for w2 in range(P.wmax + 1):
+        if not _race_once(num_pools, W_OPS[wi], X_OPS[xi], PRE[pi], w1, x1, w2):
+            return False
+    mark("W=%s X=%d" % (W_OPS[wi][0], xi))
+    return True
+
+
+def _race_body(idx):
+    from kit.h import decode_point
+    pi, w1, x1 = decode_point(idx, race_dims)
+    return N._untraced(_race_all)(P.num_pools, P.w, P.x, pi, w1, x1)
+
+
+def c17_race(idx: int) -> bool:
+    """
+    pre: 0 <= idx < P.n
+    post: _
+    """
+    return run(_race_body, idx)
+
+
+DIMS = {"c17_race": race_dims}
+
+
 def JOBS(tier):
     quick = tier == "quick"
     t = 120 if quick else 900
@@ -444,16 +832,28 @@ def JOBS(tier):
                      "timeout": t, "path_timeout": 60})
         jobs.append({"func": "c17_manager", "part": {"o1": o1, "length": 4, "lookup": True},
                      "timeout": t, "path_timeout": 60})
+    xticks = [5, 9, 4, 18, 5, 13]          # scheduling points of each X script when run alone (measured; +2 margin below)
+    for num_pools in (1, 2):
+        for w in range(len(W_OPS)):
+            for x in range(len(X_OPS)):
+                part = {"num_pools": num_pools, "w": w, "x": x, "wmax": 10 if quick else 12, "xmax": xticks[x] + (1 if quick else 3),
+                        "pre": [0, 1, 3] if quick else [0, 1, 2, 3, 4]}
+                part["n"] = space_size(race_dims(part))
+                jobs.append({"func": "c17_race", "part": part, "timeout": t, "path_timeout": 120, "samples": 1})
     return jobs
 
 
 EVIDENCE = {
-    "bounds": {"quick": "container: one operation (12 kinds) from every state with maxsize 0..3 and <= maxsize distinct keys of "
+    "bounds": {"race": "c17_race: 2 threads on one PoolManager (num_pools 1..2): W = lookup or request of origin a; X = lookup a / "
+                       "lookup b / clear() / lookup b then c / request a / lookup b then clear(); 5 pre-states of the cache; EVERY "
+                       "schedule (w1 <= 11, x1 <= all of X's scheduling points, w2 <= 11) over lock acquire/release and dict accesses",
+               "quick": "container: one operation (12 kinds) from every state with maxsize 0..3 and <= maxsize distinct keys of "
                         "a 4-key pool in any order, + probe suffix; sequences of 3 operations; manager: num_pools 1..3, 3 "
                         "requests (4 lookups) over 4 origins, clear() at any position, first two responses optionally streaming",
                "thorough": "manager: 4 requests; 7x budget"},
-    "outside": ["free thread interleavings: reduced to sequential histories by the lock-discipline monitor (every access to "
-                "the underlying dict happens with the RLock owned, dispose never under the lock) — an argument, not explored",
+    "outside": ["interleavings of three or more threads and more than two pre-emptions of W / one of X (c17_race decides two "
+                "threads; beyond that the lock-discipline monitor reduces interleavings to sequential histories — an argument)",
+                "pre-emption between byte-codes that touch neither the container's lock nor its dict",
                 "keys outside the 4-key pool (hashing pins them)"],
     "stubs": ["in-memory net for the manager layer", "clock"],
     "assumptions": ["every reachable container state is an ordered set of <= maxsize distinct keys (OrderedDict invariant + the "
